@@ -167,6 +167,34 @@ func (s *c11State) rc(v ssa.Value) bool {
 		s.whyNot[v] = "load " + RenderN(v, 3)
 		return false
 	}
+	// the parameter of an unexported setter of the filesystem (setCwd(dir)): what every call site passes
+	if pr, ok := v.(*ssa.Parameter); ok && s.helperDepth < 2 {
+		fn := pr.Parent()
+		if fn != nil && InRepo(fn) && !token.IsExported(fn.Name()) && RelPkg(PkgOf(fn)) == fsRel {
+			idx := paramIdx(pr)
+			n, all := 0, true
+			s.helperDepth++
+			for _, g := range s.c.P.Funcs() {
+				for _, cl := range Calls(g) {
+					if cl.Common().StaticCallee() != fn || idx < 0 || idx >= len(cl.Common().Args) {
+						continue
+					}
+					n++
+					if !s.rootedClean(cl.Common().Args[idx]) {
+						all = false
+						s.whyNot[v] = "as passed by " + shortFn(g) + ": " + s.whyNot[cl.Common().Args[idx]]
+					}
+				}
+			}
+			s.helperDepth--
+			if n > 0 && all {
+				return true
+			}
+			if n > 0 {
+				return false
+			}
+		}
+	}
 	s.whyNot[v] = fmt.Sprintf("%T %s", v, RenderN(v, 3))
 	return false
 }
